@@ -39,7 +39,7 @@ def plan(tier, seed):
     rng = np.random.default_rng([seed, 20, 999])
     specs = []
     combos = list(itertools.product(DTYPES, INTERVALS, STRETCHES))
-    reps = 3 if tier == "quick" else 400
+    reps = 3 if tier == "quick" else 2000
     for dt, iv, st in combos:
         for r in range(reps):
             fam = FAMILIES[int(rng.integers(len(FAMILIES)))]
